@@ -233,6 +233,11 @@ func (st *State) exec(fr *Frame, in ssa.Instruction) bool {
 		p := st.asPtr(addr)
 		st.guardAccess(fr, p, true, x.Pos())
 		st.storePtr(p, v, x.Pos())
+		if p.Kind == PObj {
+			st.publish(v, p.Root)
+		} else {
+			st.publish(v, "")
+		}
 	case *ssa.MakeMap:
 		fr.env[x] = st.makeMap(x.Type())
 	case *ssa.MakeSlice:
@@ -255,6 +260,7 @@ func (st *State) exec(fr *Frame, in ssa.Instruction) bool {
 	case *ssa.MapUpdate:
 		st.guardMapAccess(fr, st.val(fr, x.Map), true, x.Pos())
 		st.mapUpdate(st.val(fr, x.Map), st.val(fr, x.Key), st.val(fr, x.Value), x.Pos())
+		st.publish(st.val(fr, x.Value), st.val(fr, x.Map).C[0])
 	case *ssa.Range:
 		st.execRange(fr, x)
 	case *ssa.Next:
